@@ -14,9 +14,11 @@ META = {
             "2-cycle whose references are all dropped stays allocated with correct counts (cycle_leaks). That compiled code follows the "
             "discipline is explored, not proved: loops over hand-written acyclic bodies (strings, slices, structs, maps, closures, interface "
             "boxing, defer, early exits, multi-value results ...) and over every (value type, usage context) cell of the feature matrix are "
-            "compiled by the real pipeline and run instrumented; host-side malloc/free accounting at loop checkpoints after 4, 10, 100, 1000 "
-            "(thorough: 5000) iterations must show the same number of allocated blocks, a heap pointer that has stopped moving, and at exit "
-            "nothing left of what non-final iterations allocated. Two cyclic bodies are run as a sensitivity control and must be flagged.",
+            "compiled by the real pipeline and run instrumented; host-side malloc/free accounting at loop checkpoints after 4, 10, 100, 300, 1000 "
+            "(thorough: 5000) iterations must show the same number of allocated blocks, a heap pointer (__heap_ptr, the heap's high-water mark) "
+            "that does not move after iteration 100, and at exit nothing left of what non-final iterations allocated. Bodies include data parked "
+            "in package-level variables / fields of global structs and dropped again inside the iteration, and bursts of 60/100/300 frees of one "
+            "size class (across the capacity of the allocator's fixed-size free lists), where only the heap-size clause can see a loss. Two cyclic bodies are run as a sensitivity control and must be flagged.",
     "note": "Trusted: as C11 (WAT rewriting, host accounting, wazero). Modelled-not-verified: the compiler's release placement on scope exit / "
             "overwrite / early exit (explored per loop body), the allocator's ability to re-use freed memory (heap pointer observed; C10 proves "
             "the allocator). Blocks retained by design are excluded by construction of the measurement: one-time allocations happen before the "
@@ -52,7 +54,10 @@ def verdicts(cps):
         smp = [s for c in cps[1:-1] for s in c.get("leak_sample", [])][:3]
         out.append(("blocks-of-earlier-iterations-allocated-at-exit", "%d blocks allocated in iterations %s..%s are still allocated at exit (%s)" % (
             leaked, cps[0]["label"].split()[2], cps[-2]["label"].split()[2], "; ".join(smp))))
-    if len(cps) >= 3 and int(cps[-2]["label"].split()[2]) >= 100 and cps[-1]["heap_ptr"] != cps[-2]["heap_ptr"]:
+    # heap size: after the warm-up (every allocation shape has occurred by iteration 100) the bump pointer must not move any
+    # more, whatever the allocated-block count says (memory lost inside the allocator shows only here)
+    late = [c for c in cps if int(c["label"].split()[2]) >= 100]
+    if len(late) >= 2 and any(c["heap_ptr"] != late[0]["heap_ptr"] for c in late[1:]):
         out.append(("heap-pointer-grows", "__heap_ptr: %s" % ", ".join("%s=%d" % (x["label"].split()[2], x["heap_ptr"]) for x in cps)))
     return out
 
@@ -64,7 +69,8 @@ def run(ctx):
     model = ctx.build_model("c11")
     quick = ctx.tier == "quick"
     n_loop = int(os.environ.get("VERIF_C12_N", "1000" if quick else "5000"))
-    n_matrix = int(os.environ.get("VERIF_C12_NMATRIX", "100" if quick else "1000"))
+    n_matrix = int(os.environ.get("VERIF_C12_NMATRIX", "300" if quick else "1000"))
+    n_burst = int(os.environ.get("VERIF_C12_NBURST", "300" if quick else "1000"))
     progs = []      # (name, src, [group construct names], expect_leak, trace)
     cdir = os.path.join(vlib.VERIF, "corpus", "C12")
     corpus_cause = {}
@@ -79,6 +85,9 @@ def run(ctx):
     for j in range(0, len(bodies), per):
         part = bodies[j:j + per]
         progs.append(("loops:%d" % (j // per), c11_progs.loop_program(part, n_loop), ["loop:" + b[0] for b in part], False, False))
+    # bursts of frees of one size class across the capacity (64) of the allocator's fixed-size lists: heap-size clause
+    for bname, bsrc, bnames in c11_progs.burst_programs(n_burst, per=1):
+        progs.append((bname, bsrc, ["burst:" + x for x in bnames], False, False))
     progs.append(("loops:traced", c11_progs.loop_program(bodies, 10), ["loop:" + b[0] for b in bodies], False, True))
     cyc = [(k,) + v for k, v in c11_progs.CYCLE_BODIES.items()]
     progs.append(("cycles", c11_progs.loop_program(cyc, min(n_loop, 1000)), ["cycle:" + b[0] for b in cyc], True, False))
